@@ -248,7 +248,10 @@ def run_property(prop: str, tier: str = "quick", replay: Optional[str] = None, t
     names_now = sorted(set(r.name for r in real))
     missing = []
     if ledger is not None:
-        missing = [n for n in ledger["obligation_names"] if n not in set(names_now)]
+        # names are compared modulo the suffixes that goal splitting adds (conjunct ordinals, subset/superset, le/ge):
+        # a harmless rewrite of an expression may change how a goal is split without changing what is proved
+        now_norm = set(norm_name(n) for n in names_now)
+        missing = [n for n in ledger["obligation_names"] if n not in set(names_now) and norm_name(n) not in now_norm]
 
     findings, fixed = load_findings(prop)
     violations = []
@@ -271,7 +274,8 @@ def run_property(prop: str, tier: str = "quick", replay: Optional[str] = None, t
         if f is not None:
             known_hits.append((f, r))
             continue
-        in_ledger = ledger is not None and r.name in set(ledger["obligation_names"])
+        in_ledger = ledger is not None and (r.name in set(ledger["obligation_names"]) or
+                                            norm_name(r.name) in set(norm_name(n) for n in ledger["obligation_names"]))
         # look for a concrete failing input on the real code
         concrete = None
         if suite is not None:
@@ -417,6 +421,16 @@ def run_property(prop: str, tier: str = "quick", replay: Optional[str] = None, t
     print("%s: %d/%d obligations discharged over %d functions (%d paths); gen %.1fs solve %.1fs; exit %d" % (
         prop, n_dis, n_obl, len(functions), paths, gen_time, solve_time, exit_code))
     return exit_code
+
+
+def norm_name(name: str) -> str:
+    import re
+
+    prev = None
+    while prev != name:
+        prev = name
+        name = re.sub(r"(/subset|/superset|/le|/ge|\.\d+)$", "", name)
+    return name
 
 
 def count_by(items, key):
